@@ -80,6 +80,15 @@ theorem memo_keys_honour_arguments :
 (with `observation_nan_policy` at its default) -/
 theorem covar_cache_read_guard : ∀ fpv skip, table.defaultReadsCovarCache fpv skip false = (fpv && !skip) := by decide
 
+/-- A cache filled under accuracy-degrading settings stays invisible to the calls that must not see it: with the
+default / interpolated strategy a call without `fast_pred_var` does not read `covar_cache` (so a truncated root
+left there by an earlier `degradedRoot` call cannot reach a plain prediction). -/
+theorem covar_cache_invisible_without_fast_pred_var (c : Cell) (cls : Nat) (hc : c.fpv = false) (hs : (cls == cSGPR) = false) :
+    sCovar ∉ memoReads table cls c := by
+  unfold memoReads
+  rw [hs, hc]
+  cases c <;> simp [table, sMean, sCovar]
+
 /-- all facts the invariant needs hold of the table generated from the current source -/
 theorem tableOK_generated : TableOK table := by decide
 
